@@ -33,15 +33,15 @@ type refTracker struct {
 	contacts []time.Duration // simulated time of the first message of each announce
 	lastSeen time.Duration
 	// per accepted reply: what was encoded
-	expect   map[string]bool
-	interval int64 // the interval most recently announced in an accepted reply
-	intervalKnown bool
-	intervals []int64
+	expect              map[string]bool
+	interval            int64 // the interval most recently announced in an accepted reply
+	intervalKnown       bool
+	intervals           []int64
 	lastAnnounceContact int
-	requests int
+	requests            int
 	// udp
 	connIDs map[uint64]bool
-	log []string
+	log     []string
 	replies []trReply
 	dirty   map[int]bool // contacts during which the tracker misbehaved in any way
 }
